@@ -123,6 +123,15 @@ func init() {
 			"declared dictionary >= every distance and == smallest code >= DictCap, exact BlockSize for non-last blocks; non-trivial = non-empty payload; distinct = distinct scenario digests",
 		Gen: func(r *sim.Rng, tier string, idx int) *WCase {
 			c := genXZWCase(r, tier, idx, false)
+			if isVeryFarCase(tier, idx) {
+				// one match 16-40 MiB back in a 32/64 MiB dictionary (as in C01):
+				// the distance coding for the largest slots, judged by the
+				// reference decoder
+				pl, dc := veryFarPayload(r, idx)
+				c.XZ.DictCap, c.XZ.Matcher, c.XZ.BlockSize, c.XZ.BufSize = dc, 0, 0, 4096
+				c.Payload, c.RDict = pl, 0
+				c.Ops = []Op{{K: "w", N: pl.Len()}, {K: "c"}}
+			}
 			wildConfig(r, c)
 			return c
 		},
